@@ -162,6 +162,12 @@ fn texts() -> Vec<Vec<u8>> {
     t7.extend(vec![b'A'; 70]);
     t7.extend(b":".iter());
     t7.extend(vec![b'B'; 36]);
+    // a run that ends inside the capacity followed by ordinary characters: raw 68 / 36 symbols, normalized 63 / 31
+    let mut t8 = b"3:AAAAAAAA".to_vec();
+    t8.extend(b(ramp(60, 1)));
+    t8.extend(b":".iter());
+    let mut t9 = b"3:B:AAAAAAAA".to_vec();
+    t9.extend(b(ramp(28, 1)));
     vec![
         b"3::".to_vec(),
         b"3:AAAABBBB:CCCCDDDD".to_vec(),
@@ -171,6 +177,8 @@ fn texts() -> Vec<Vec<u8>> {
         b"12:AAAAAAAAB:///////,x".to_vec(),
         b"4:A:B".to_vec(),
         t7,
+        t8,
+        t9,
     ]
 }
 
@@ -246,7 +254,7 @@ impl Menu {
         let mut actions = vec![];
         for r in 0..6u8 {
             for t in 0..texts.len() as u8 {
-                if full || r < 2 || t == 1 || t == 3 || t == 4 || t == 7 || (r >= 4 && t == 5) {
+                if full || r < 2 || t == 1 || t == 3 || t == 4 || t == 7 || (r >= 4 && (t == 5 || t >= 8)) {
                     actions.push(Act::Parse(r, t));
                 }
             }
@@ -716,7 +724,7 @@ pub fn run(ctx: &Ctx) -> Report {
     rep.set("exhaustive_scope", "all action sequences up to the depth bound over the stated menu (depth-bounded, not closed)");
     rep.set(
         "rule",
-        "register file with one object per type (4 plain, 2 dual, compare target, position array); menu: parse 8 texts (valid, run-heavy, capacity, long block hash 2, raw-overflowing, invalid) into 6 registers; new_from_internals / _near_raw / _raw / init_from_internals_raw with 10 argument sets each (in-contract, symbol 64 / 255 / 200, length over capacity, non-zero tail, un-normalised data for normalising types, invalid block size / log); normalize_in_place; 24 conversions between registers with previously used destinations; dual init / expand; compare-target init from 4 sources; position array init / clear; generator results.  Depth-1 sweep of the full menu from 4 base states + BFS to the depth bound.  Out-of-contract constructor calls may panic (counted) but must never leave an invalid object.",
+        "register file with one object per type (4 plain, 2 dual, compare target, position array); menu: parse 10 texts (valid, run-heavy, capacity, long block hash 2, raw-overflowing by one run / by ordinary characters after a run, invalid) into 6 registers; new_from_internals / _near_raw / _raw / init_from_internals_raw with 10 argument sets each (in-contract, symbol 64 / 255 / 200, length over capacity, non-zero tail, un-normalised data for normalising types, invalid block size / log); normalize_in_place; 24 conversions between registers with previously used destinations; dual init / expand; compare-target init from 4 sources; position array init / clear; generator results.  Depth-1 sweep of the full menu from 4 base states + BFS to the depth bound.  Out-of-contract constructor calls may panic (counted) but must never leave an invalid object.",
     );
     rep
 }
